@@ -20,6 +20,7 @@ type gatedStorage struct {
 	t0     uint32
 	decode func(key string, raw []byte) event // adds decoded fields of a value to an event
 	fault  func(op, key string) error         // optional fault injection
+	clock  func() uint32                      // nil: utils.Timestamp()
 }
 
 type gsEntry struct {
@@ -31,7 +32,12 @@ func newGatedStorage(s *sched, decode func(string, []byte) event) *gatedStorage 
 	return &gatedStorage{s: s, data: map[string]gsEntry{}, t0: utils.Timestamp(), decode: decode}
 }
 
-func (g *gatedStorage) now() uint32 { return utils.Timestamp() }
+func (g *gatedStorage) now() uint32 {
+	if g.clock != nil {
+		return g.clock()
+	}
+	return utils.Timestamp()
+}
 
 func (g *gatedStorage) live(key string) ([]byte, bool) {
 	e, ok := g.data[key]
